@@ -27,6 +27,8 @@ type RunCfg struct {
 	Scratch  string // scratch root (under /dev/shm)
 	Scale    float64
 	Self     string // path of this binary
+	Shard    int    // this process runs cases with index % Shards == Shard (concmon children)
+	Shards   int
 }
 
 // ---------------------------------------------------------------------------------------
@@ -153,6 +155,12 @@ func (r *Reporter) Finish(ev *Evidence) int {
 	}
 	code := 0
 	os.MkdirAll(r.cfg.Replays, 0o755)
+	// witnesses of earlier runs with the same property/tier/seed are stale now
+	if old, _ := filepath.Glob(filepath.Join(r.cfg.Replays, fmt.Sprintf("%s-%s-seed%d-*.json", r.cfg.Property, r.cfg.Tier, r.cfg.Seed))); len(old) > 0 {
+		for _, f := range old {
+			os.Remove(f)
+		}
+	}
 	for i, s := range r.order {
 		v := r.viol[s]
 		name := fmt.Sprintf("%s-%s-seed%d-%d.json", r.cfg.Property, r.cfg.Tier, r.cfg.Seed, i)
@@ -400,4 +408,73 @@ func parallel(n, w int, fn func(i int)) {
 	}
 	close(ch)
 	wg.Wait()
+}
+
+// ---------------------------------------------------------------------------------------
+// shard results: children of a sharded engine send their coverage and findings to the parent
+
+type shardResult struct {
+	Counts   map[string]int64    `json:"counts"`
+	Sets     map[string][]string `json:"sets"`
+	Samples  []any               `json:"samples"`
+	Viol     []Violation         `json:"violations"`
+	ViolN    map[string]int      `json:"violation_counts"`
+	KnownHit map[string]int      `json:"known_hits"`
+	Inconcl  map[string]int      `json:"inconclusive"`
+}
+
+func dumpShard(rep *Reporter, cov *Cov) shardResult {
+	r := shardResult{Counts: map[string]int64{}, Sets: map[string][]string{}, ViolN: map[string]int{}, KnownHit: map[string]int{}, Inconcl: map[string]int{}}
+	cov.mu.Lock()
+	for k, v := range cov.counts {
+		r.Counts[k] = v
+	}
+	for k, set := range cov.sets {
+		for m := range set {
+			r.Sets[k] = append(r.Sets[k], m)
+		}
+	}
+	r.Samples = cov.samples
+	cov.mu.Unlock()
+	rep.mu.Lock()
+	for _, s := range rep.order {
+		r.Viol = append(r.Viol, *rep.viol[s])
+		r.ViolN[s] = rep.violN[s]
+	}
+	for k, v := range rep.knownHit {
+		r.KnownHit[k] = v
+	}
+	for k, v := range rep.inconcl {
+		r.Inconcl[k] = v
+	}
+	rep.mu.Unlock()
+	return r
+}
+
+func mergeShard(rep *Reporter, cov *Cov, r shardResult) {
+	for k, v := range r.Counts {
+		cov.Add(k, v)
+	}
+	for k, ms := range r.Sets {
+		for _, m := range ms {
+			cov.Distinct(k, m)
+		}
+	}
+	for i, x := range r.Samples {
+		cov.Sample(fmt.Sprintf("shard-sample-%d-%p", i, &r), x)
+	}
+	for _, v := range r.Viol {
+		n := r.ViolN[v.Sig]
+		for i := 0; i < n; i++ {
+			rep.Report(v)
+		}
+	}
+	rep.mu.Lock()
+	for k, v := range r.KnownHit {
+		rep.knownHit[k] += v
+	}
+	for k, v := range r.Inconcl {
+		rep.inconcl[k] += v
+	}
+	rep.mu.Unlock()
 }
